@@ -87,7 +87,7 @@ def prove(prop, thorough):
         # find which theorems are implicated
         bad = set()
         src = open(os.path.join(LEAN, "PintModel", "Props", prop + ".lean")).read().splitlines()
-        for m in re.finditer(r"Props/%s\.lean:(\d+):\d+: error" % prop, out):
+        for m in re.finditer(r"error: \S*Props/%s\.lean:(\d+):\d+" % prop, out):
             ln = int(m.group(1))
             for i in range(min(ln, len(src)) - 1, -1, -1):
                 t = re.match(r"^(theorem|def|example|instance)\s+(\S+)", src[i])
